@@ -737,6 +737,18 @@ pub mod verif {
     pub fn sign_key(exported_session_key: &[u8], is_client: bool) -> Vec<u8> { super::sign_key(exported_session_key, is_client) }
     pub fn seal_key(exported_session_key: &[u8], is_client: bool) -> Vec<u8> { super::seal_key(exported_session_key, is_client) }
     pub fn mac(rc4_handle: &mut Rc4, signing_key: &[u8], seq_num: u32, data: &[u8]) -> Vec<u8> { super::mac(rc4_handle, signing_key, seq_num, data) }
+    pub fn unicode(data: &String) -> Vec<u8> { super::unicode(data) }
+    pub fn ntowfv2(password: &String, user: &String, domain: &String) -> Vec<u8> { super::ntowfv2(password, user, domain) }
+    pub fn ntowfv2_hash(hash: &[u8], user: &String, domain: &String) -> Vec<u8> { super::ntowfv2_hash(hash, user, domain) }
+    pub fn lmowfv2(password: &String, user: &String, domain: &String) -> Vec<u8> { super::lmowfv2(password, user, domain) }
+    pub fn compute_response_v2(response_key_nt: &[u8], response_key_lm: &[u8], server_challenge: &[u8], client_challenge: &[u8], time: &[u8], server_name: &[u8]) -> (Vec<u8>, Vec<u8>, Vec<u8>) {
+        super::compute_response_v2(response_key_nt, response_key_lm, server_challenge, client_challenge, time, server_name)
+    }
+    /// header, payload of `authenticate_message`
+    pub fn authenticate_message(lm_challenge_response: &[u8], nt_challenge_response:&[u8], domain: &[u8], user: &[u8], workstation: &[u8], encrypted_random_session_key: &[u8], flags: u32) -> (Vec<u8>, Vec<u8>) {
+        let r = super::authenticate_message(lm_challenge_response, nt_challenge_response, domain, user, workstation, encrypted_random_session_key, flags);
+        (super::to_vec(&r.0), r.1)
+    }
 }
 
 #[cfg(rdp_rs_verif)]
